@@ -19,7 +19,11 @@ class Env:
         self._progs = {}
         self._errs = {}
 
+    primary = "default"
+
     def prog(self, cfg="default"):
+        if cfg == "default":
+            cfg = self.primary
         if cfg in self._progs:
             return self._progs[cfg]
         if cfg in self._errs:
@@ -40,6 +44,57 @@ class Env:
         self.ctx.analysed.setdefault("instances", len(f["graph"]["nodes"]))
         self.ctx.analysed.setdefault("call_edges", sum(len(n["callees"]) for n in f["graph"]["nodes"]))
         return p
+
+
+def thorough(ctx, env, mod, pid):
+    """Thorough tier: the same rules on the other build configurations (feature off; overflow checks /
+    debug assertions off), the module's own extra checks, and the seeded-mutant sensitivity run."""
+    if hasattr(mod, "run_thorough"):
+        mod.run_thorough(ctx, env)
+    extra = ["default-nochecks"] if pid == "C17" else ["nofeat", "default-nochecks"]
+    for cfg in extra:
+        n0 = len(ctx.obls)
+        env.primary = cfg
+        try:
+            env.prog("default")
+            mod.run(ctx, env)
+        except facts.FactsError as e:
+            ctx.ob("R0", "crate", "compiles:%s" % cfg, False, "crate does not compile in configuration %s" % cfg, extra=e.log[-3000:])
+        finally:
+            env.primary = "default"
+        for o in ctx.obls[n0:]:
+            o["func"] = "[%s] %s" % (cfg, o["func"])
+            # same key as in the default configuration so that known findings apply; keep distinct for counting
+            o["key"] = o["key"]
+            o["cfg"] = cfg
+    # seeded mutants for this property
+    import subprocess
+    here = os.path.dirname(os.path.dirname(os.path.abspath(__file__)))
+    try:
+        r = subprocess.run([sys.executable, os.path.join(here, "selftest", "run_mutants.py"), "-j", "8", "--json", pid],
+                           stdout=subprocess.PIPE, stderr=subprocess.PIPE, text=True, timeout=3000)
+        res = json.loads(r.stdout.strip().splitlines()[-1]) if r.stdout.strip() else []
+    except Exception as e:  # noqa
+        res = []
+        ctx.note("mutant run failed: %s" % e)
+    applied = detected = 0
+    st = []
+    for m in res:
+        if m["status"] in ("skipped", "nocompile", "norule"):
+            st.append({"mutant": m["id"], "status": m["status"], "detail": str(m["detail"])[:200]})
+            continue
+        if m["status"] in ("silent-ok", "unexpected-alarm"):
+            st.append({"mutant": m["id"], "status": m["status"], "detail": str(m["detail"])[:300]})
+            continue
+        applied += 1
+        ok = m["status"] == "detected"
+        detected += 1 if ok else 0
+        st.append({"mutant": m["id"], "status": m["status"], "detail": str(m["detail"])[:300]})
+        if not ok:
+            print("SELFTEST-MISS property=%s mutant=%s (checker sensitivity gap, not a violation of the analysed tree)" % (pid, m["id"]))
+    # checker self-validation is reported in the evidence; it is not a verdict about /repo and never raises VIOLATION
+    ctx.analysed["selftest"] = {"mutants_applied": applied, "mutants_detected": detected, "results": st,
+                                "rule": "each seeded property-breaking edit (selftest/mutants.json, applied to a scratch copy of the current /repo) must trip the named rule; harmless edits must stay silent"}
 
 
 def main(argv):
@@ -77,8 +132,8 @@ def main(argv):
                    extra=e.log[-4000:])
         else:
             mod.run(ctx, env)
-            if tier == "thorough" and hasattr(mod, "run_thorough"):
-                mod.run_thorough(ctx, env)
+            if tier == "thorough":
+                thorough(ctx, env, mod, pid)
     except Exception:
         ctx.ob("R0", "engine", "internal-error", False,
                "rule engine raised an exception (fail closed): " + traceback.format_exc()[-3000:])
